@@ -644,6 +644,38 @@ where
     }
 }
 
+#[cfg(feature = "verif_hooks")]
+impl<R: io::Read, P> Reader<R, P> {
+    /// Read-only view of the private parser state (verification harness only).
+    pub fn verif_snapshot(&self) -> Vec<(&'static str, i64)> {
+        let mut v = vec![
+            ("state", self.state as i64),
+            ("buf_len", self.buf_reader.buffer().len() as i64),
+            ("cap", self.buf_reader.capacity() as i64),
+            ("start", self.buf_pos.start as i64),
+            ("search_pos", self.search_pos as i64),
+            ("n_seq_pos", self.buf_pos.seq_pos.len() as i64),
+            ("pos_line", self.position.line as i64),
+            ("pos_byte", self.position.byte as i64),
+        ];
+        v.extend(self.buf_pos.seq_pos.iter().map(|p| ("seq_pos", *p as i64)));
+        v
+    }
+}
+
+#[cfg(feature = "verif_hooks")]
+impl RecordSet {
+    /// Read-only view of the private record set state (verification harness only).
+    pub fn verif_snapshot(&self) -> Vec<(&'static str, i64)> {
+        vec![
+            ("buf_len", self.buffer.len() as i64),
+            ("buf_cap", self.buffer.capacity() as i64),
+            ("n_positions", self.positions.len() as i64),
+            ("npos", self.npos as i64),
+        ]
+    }
+}
+
 /// Borrowed iterator of `OwnedRecord`
 pub struct RecordsIter<'a, R, P = DefaultPolicy>
 where
